@@ -418,10 +418,19 @@ theorem psbt_global_tables_wellformed : specGlobal.WF := wf_specGlobal
     field, `sorted(dict.items())` for a dict, the unknown records at their place) over the typed object the
     parse loop built from a duplicate-free map gives exactly the records that survive the explicit drop
     predicate, sorted by (field rank, key). -/
-theorem psbt_serialize_loop_of_parse_loop (s : Spec) (wf : s.WF) (recs : List Rec) (hv : ValidRecs recs)
-    (hok : ∀ r ∈ recs, s.whole.contains (tyOf r.1) = true → keyData r.1 = []) :
-    toRecs s (fromRecs s recs) = sortRecs s.rank (recs.filter (fun r => !s.dropped (s.finalized recs) r)) :=
-  toRecs_fromRecs s wf recs hv hok
+theorem psbt_serialize_loop_of_parse_loop (s : Spec) (wf : s.WF) (ver : Nat) (recs : List Rec)
+    (hv : ValidRecs recs)
+    (hok : ∀ r ∈ recs, s.whole.contains (tyOf r.1) = true → keyData r.1 = [])
+    (hgate : ∀ r ∈ recs, s.gated ver (tyOf r.1) = false) :
+    toRecs s ver (fromRecs s recs) =
+      sortRecs s.rank (recs.filter (fun r => !s.dropped (s.finalized recs) r)) :=
+  toRecs_fromRecs s wf ver recs hv hok hgate
+
+/-- the version gate of the serialize loop never bites on what the parse loop admitted at that version:
+    a record `recordOk ver` accepts is of a field `serialize` writes at `ver` -/
+theorem psbt_parse_admits_only_what_serialize_writes (s : Spec) (wf : s.WF) (ver : Nat) (r : Rec)
+    (h : s.recordOk ver r = true) : s.gated ver (tyOf r.1) = false :=
+  recordOk_not_gated s wf ver r h
 
 /-- hence: whenever `X.parse(b).serialize()` answers, its records are exactly the records of `b` that are
     of neither kind -- every other key-value pair, unknown ones included, is kept unaltered, and none is
@@ -429,10 +438,10 @@ theorem psbt_serialize_loop_of_parse_loop (s : Spec) (wf : s.WF) (recs : List Re
 theorem psbt_reserialize_keeps_all_but (s : Spec) (wf : s.WF) (ver : Nat) (b out : Bytes)
     (h : reser s ver b = .ok out) :
     ∃ recs recs', parseMap b = .ok (recs, []) ∧ parseMap out = .ok (recs', []) ∧
-      recs' = toRecs s (fromRecs s recs) ∧
+      recs' = toRecs s ver (fromRecs s recs) ∧ (ver = 0 ∨ ver = 2) ∧
       ∀ r, r ∈ recs' ↔ r ∈ recs ∧ ¬ EmptyValueKind s r ∧ ¬ FinalizerFieldKind s recs r := by
-  obtain ⟨recs, hp, _, hv, e, rfl⟩ := reser_ok s wf ver b out h
-  refine ⟨recs, _, hp, parseMap_sorted_kept s recs hv, e.symm, ?_⟩
+  obtain ⟨recs, hp, _, hv, e, rfl, hver⟩ := reser_ok s wf ver b out h
+  refine ⟨recs, _, hp, parseMap_sorted_kept s recs hv, e.symm, hver, ?_⟩
   intro r
   rw [mem_sorted_kept]
   simp only [Spec.dropped, Bool.or_eq_false_iff, Bool.and_eq_false_iff, EmptyValueKind, FinalizerFieldKind,
@@ -463,7 +472,7 @@ theorem psbt_reserialize_keeps_all_but (s : Spec) (wf : s.WF) (ver : Nat) (b out
     own version record and whose required fields `_settle_globals` checks) -/
 theorem psbtin_reserialize_keeps_all_but (ver : Nat) (b out : Bytes) (h : reser specIn ver b = .ok out) :
     ∃ recs recs', parseMap b = .ok (recs, []) ∧ parseMap out = .ok (recs', []) ∧
-      recs' = toRecs specIn (fromRecs specIn recs) ∧
+      recs' = toRecs specIn ver (fromRecs specIn recs) ∧ (ver = 0 ∨ ver = 2) ∧
       ∀ r, r ∈ recs' ↔ r ∈ recs ∧ ¬ EmptyValueKind specIn r ∧ ¬ FinalizerFieldKind specIn recs r :=
   psbt_reserialize_keeps_all_but specIn wf_specIn ver b out h
 
@@ -471,7 +480,7 @@ theorem psbtin_reserialize_keeps_all_but (ver : Nat) (b out : Bytes) (h : reser 
 theorem psbtout_reserialize_keeps_all_but (ver : Nat) (b out : Bytes) (h : reser specOut ver b = .ok out) :
     ∃ recs recs', parseMap b = .ok (recs, []) ∧ parseMap out = .ok (recs', []) ∧
       ∀ r, r ∈ recs' ↔ r ∈ recs ∧ ¬ EmptyValueKind specOut r := by
-  obtain ⟨recs, recs', h1, h2, _, h3⟩ := psbt_reserialize_keeps_all_but specOut wf_specOut ver b out h
+  obtain ⟨recs, recs', h1, h2, _, _, h3⟩ := psbt_reserialize_keeps_all_but specOut wf_specOut ver b out h
   refine ⟨recs, recs', h1, h2, fun r => ?_⟩
   rw [h3 r]
   have : ¬ FinalizerFieldKind specOut recs r := fun hf => by
@@ -482,7 +491,7 @@ theorem psbtglobal_reserialize_keeps_all_but (b out : Bytes) (h : reserGlobal b 
     ∃ recs recs', parseMap b = .ok (recs, []) ∧ parseMap out = .ok (recs', []) ∧
       ∀ r, r ∈ recs' ↔ r ∈ recs ∧ ¬ EmptyValueKind specGlobal r := by
   obtain ⟨ver, _, h'⟩ := reserGlobal_ok b out h
-  obtain ⟨recs, recs', h1, h2, _, h3⟩ := psbt_reserialize_keeps_all_but specGlobal wf_specGlobal ver b out h'
+  obtain ⟨recs, recs', h1, h2, _, _, h3⟩ := psbt_reserialize_keeps_all_but specGlobal wf_specGlobal ver b out h'
   refine ⟨recs, recs', h1, h2, fun r => ?_⟩
   rw [h3 r]
   have : ¬ FinalizerFieldKind specGlobal recs r := fun hf => by
